@@ -84,4 +84,4 @@ def typecheck(hres, workdir, name):
                         "-o", os.path.join(d, "out.rmeta"), lib],
                        stdout=subprocess.PIPE, stderr=subprocess.PIPE, text=True, timeout=120)
     codes = sorted(set(re.findall(r"error\[(E\d+)\]", p.stderr)))
-    return p.returncode == 0, codes, p.stderr[-3000:]
+    return p.returncode == 0, codes, p.stderr[-200000:]
